@@ -25,7 +25,7 @@ KINDS = {1: 'model Utils.get_line_number differs from utils::get_line_number',
 
 
 def digest_bin(ctx):
-    return os.path.join(os.path.dirname(ctx.harness), 'vh_digest')
+    return vlib.need_bin('vh_digest')
 
 
 def impl_lines(ctx, cases):
